@@ -147,6 +147,13 @@ type FnGen struct {
 	witnesses []*Term
 	// number of heap havocs so far
 	havocCount int
+	// non-escaping local cells of the function under verification
+	stackCells []stackCell
+}
+
+type stackCell struct {
+	ref *Term
+	ty  types.Type
 }
 
 func (fg *FnGen) note(s string) { fg.notes[s] = true }
@@ -890,8 +897,12 @@ func (fg *FnGen) assumeValid(t *Term, ty types.Type, guard *Term) {
 		if lo, hi, ok := intRange(ty); ok && t.Kind != KIntLit {
 			fg.assumeIf(guard, And(Ge(t, BigIntLit(lo)), Le(t, BigIntLit(hi))))
 		}
+		if t.Sort == SString && t.Kind == KConst {
+			// a Go string's length fits in an int
+			fg.assumeIf(guard, Le(StrLen(t), BigIntLit("9223372036854775807")))
+		}
 	case *types.Slice:
-		fg.assumeIf(guard, And(Ge(SLen(t), IntLit(0)), Ge(SCap(t), SLen(t)), Ge(SOff(t), IntLit(0)), Ge(SBase(t), IntLit(0)),
+		fg.assumeIf(guard, And(Ge(SLen(t), IntLit(0)), Ge(SCap(t), SLen(t)), Ge(SOff(t), IntLit(0)), Ge(SBase(t), IntLit(0)), Le(SCap(t), BigIntLit("9223372036854775807")),
 			Implies(Eq(SBase(t), IntLit(0)), Eq(SCap(t), IntLit(0)))))
 		if isByteSlice(ty) {
 			// backing store is at least off+cap long
